@@ -281,6 +281,8 @@ func (d *Director) Withdraw(via *Actor, wl *Wallet) error {
 	acc := store.Account(wl.Addr)
 	led := d.ledger()
 	credit := w.Ref.GetAccountBalance(acc).Credit
+	stored, _ := w.Inner.GetAccountBalance(acc) // what a successful withdrawal settles, as stored
+	storedCredit := new(big.Int).Set(&stored.Credit)
 	dep := w.Dep.dep(acc)
 	total := new(big.Int).Add(credit, dep)
 	w.Set.mu.Lock()
@@ -290,13 +292,34 @@ func (d *Director) Withdraw(via *Actor, wl *Wallet) error {
 	w.Set.mu.Unlock()
 	ctx, cancel := d.ctx()
 	defer cancel()
+	if d.faultWithdrawOnly {
+		w.YS.SetDisarmed(false)
+	}
 	err := via.Call(ctx, nil, "pool_withdraw", wl.WSigned("pool_withdraw", d.nonce(wl.Addr))...)
+	if d.faultWithdrawOnly {
+		w.YS.SetDisarmed(true)
+	}
 	d.logf("%s -> %v", op, err)
 	w.Set.mu.Lock()
 	newPaid := append([]Payment(nil), w.Set.Paid[paidBefore:]...)
 	w.Set.mu.Unlock()
 	belowMin := w.Cfg.WithdrawMin != nil && total.Cmp(w.Cfg.WithdrawMin) < 0
+	storageErr := err != nil && strings.Contains(err.Error(), "injected I/O error")
 	switch {
+	case storageErr:
+		// a storage error made the withdrawal fail: a failed withdrawal pays nothing and changes nothing
+		if len(newPaid) != 0 {
+			d.bad("C07", "withdraw", "a withdrawal that reported a storage error had already paid", "%s: error %q but %v was settled; the credit is still on the books and can be withdrawn again", op, err, newPaid[0].Amount)
+		}
+		after, _ := w.Inner.GetAccountBalance(acc)
+		if len(newPaid) == 0 && after.Credit.Cmp(storedCredit) != 0 {
+			d.bad("C07", "withdraw", "a withdrawal that failed with a storage error changed the balance", "%s: error %q, stored credit %s -> %s", op, err, storedCredit, after.Credit.String())
+		}
+		d.checkLedger(led, op, new(big.Int), "a refused or failed withdrawal")
+		// the mirror follows the store (the failed attempt may or may not have consumed the nonce)
+		if w.Ref.Accounts[acc] != nil {
+			w.Ref.Accounts[acc].Set(&after.Credit)
+		}
 	case belowMin || willFail:
 		why := "below the minimum"
 		if !belowMin {
@@ -335,7 +358,7 @@ func (d *Director) Withdraw(via *Actor, wl *Wallet) error {
 		if left.Sign() != 0 {
 			d.bad("C07", "withdraw", "wallet still holds a balance after a successful withdrawal", "%s: paid %s, but deposit %s + credit %s = %s remain withdrawable", op, want, b.Deposit.String(), b.Credit.String(), left)
 		}
-		d.checkLedger(led, op, new(big.Int).Neg(credit), "a successful withdrawal (expected: minus the settled credit)")
+		d.checkLedger(led, op, new(big.Int).Neg(storedCredit), "a successful withdrawal (expected: minus the settled credit)")
 		d.compareState("C07", op)
 	}
 	return err
@@ -352,6 +375,31 @@ func (sd *SimDeposit) GetAccountBalanceDirect(acc store.Account) (store.Balance,
 }
 
 // ---------------------------------------------------------------- refused requests (C04, C06)
+
+// respell writes a hex identity differently (case of the digits a-f, 0X prefix); mode 0 and 1 leave it alone.
+func respell(id string, mode int) string {
+	pre, body := "", id
+	if strings.HasPrefix(id, "0x") || strings.HasPrefix(id, "0X") {
+		pre, body = id[:2], id[2:]
+	}
+	switch mode {
+	case 2:
+		return pre + strings.ToLower(body)
+	case 3:
+		return pre + strings.ToUpper(body)
+	case 4:
+		if pre != "" {
+			return "0X" + body
+		}
+		// flip the case of the first letter digit
+		for i, c := range body {
+			if c >= 'a' && c <= 'f' {
+				return body[:i] + strings.ToUpper(body[i:i+1]) + body[i+1:]
+			}
+		}
+	}
+	return id
+}
 
 // forgeSpec describes one altered request.
 type forgeSpec struct {
@@ -508,7 +556,13 @@ func (d *Director) Forge(attacker *Actor, victim *Actor, wl *Wallet) {
 			} else {
 				args[1] = w2.Addr
 			}
+			// or the same 20 bytes spelled differently: the signature covers the identity string
 			identity = args[1].(string)
+			if alt := respell(wl.Addr, d.choose("forge.respell", 5)); alt != wl.Addr {
+				what = "identity respelled as " + alt
+				args[1] = alt
+				identity = wl.Addr
+			}
 		case 4:
 			what = "method altered"
 			if endpoint == "pool_addNode" {
@@ -538,7 +592,26 @@ func (d *Director) Forge(attacker *Actor, victim *Actor, wl *Wallet) {
 		identity = victim.ID
 		params := d.legitParams(endpoint, victim)
 		args = victim.Signed(endpoint, nonce, params)
-		switch d.choose("forge.alter", 10) {
+		alter := d.choose("forge.alter", 11)
+		if alter == 10 && endpoint != "vipnode_update" {
+			alter = 5
+		}
+		if alter == 10 {
+			// a keep-alive signed in the deprecated format (peers, block_number) that the pool still accepts:
+			// the peers_info it carries is outside that signature; here it names a peer the signer never
+			// reported.  Refusing it or acting on the signed content only are both fine.
+			tampered := other.ID
+			if tampered == victim.ID {
+				tampered = attacker.ID
+			}
+			if _, e := w.Ref.GetNode(storeID(victim)); e != nil {
+				d.Connect(victim, "", "", false)
+			}
+			w.S.Fault("altered_signed_request")
+			d.UpdateOldTampered(victim, []string{w.Actors[0].ID}, tampered, 7)
+			return
+		}
+		switch alter {
 		case 0:
 			what = "signature byte flipped"
 			args[0] = flipSigByte(args[0].(string), d.choose("forge.pos", 64), false)
@@ -557,6 +630,11 @@ func (d *Director) Forge(attacker *Actor, victim *Actor, wl *Wallet) {
 			}
 			args[1] = id2
 			identity = id2
+			if alt := respell(victim.ID, d.choose("forge.respell", 5)); alt != victim.ID {
+				what = "identity respelled as " + short10(alt)
+				args[1] = alt
+				identity = victim.ID
+			}
 		case 4:
 			what = "method altered"
 			m2 := signedNodeEndpoints[(indexOfStr(signedNodeEndpoints, endpoint)+1+d.choose("forge.m2", 4))%len(signedNodeEndpoints)]
